@@ -37,7 +37,8 @@ LEVEL_TEXT = ("Kernel-checked Lean theorem over ALL listener configurations (arb
               "incompatible / inconsistent is not notified again (C33_iteration_without_change_is_silent, C33_known_endpoint_not_renotified). "
               "Four defects found by this check were repaired (D38 DATA_AVAILABLE never reached subscriber / participant listeners; "
               "D-listen-1 incompatible-QoS callbacks repeated on every worker iteration; D-listen-2 inconsistent-topic count growing on every "
-              "iteration and counted twice through the type-lookup path; D-listen-3 the topic listener never called); their old behaviour is kept "
+              "iteration (now: once per inconsistent remote type, reported when topic discovery resolves it; endpoints add nothing); D-listen-3 the topic "
+              "listener never called); their old behaviour is kept "
               "as Lean regression witnesses on the `…Old` model functions and as corpus scenarios. The model is tied to the code by a differential "
               "run of dsim scenarios (all 2^3 placements x every event family, plus random masks), and an independent Python statement of "
               "the DDS rule checks every recorded callback, its multiplicity, and that observable changes did produce their callback.")
@@ -48,4 +49,3 @@ LEVEL_NOTE = ("Trusted: Lean kernel; Model/Listener.lean (transcription of the i
               "re-notification when an already incompatible endpoint changes its QoS to another incompatible one.")
 TECHNIQUE = "Lean 4 theorems over all mask placements (dispatch = first enabled level) + differential correspondence through the deterministic simulator"
 DESIGN_REF = "DESIGN.md section 5 C33"
-CLAIMED = False   # the listener model is being re-aligned with main (the D-listen-2 repair was withdrawn: it broke baseline tests)
